@@ -1,7 +1,7 @@
 CONSTANTS
   Variant = "abort_subclass"
   Family = "abort"
-  Size = "q"
+  Size = "m"
 INIT Init
 NEXT Next
 CHECK_DEADLOCK FALSE
